@@ -132,7 +132,9 @@ var harnesses = map[string]*Harness{
 		Instrument: []InstrSpec{
 			{File: "internal/types/encoder.go", Opt: instrument.Options{Yield: true, Pool: true, MinPool: 2}},
 			{File: "internal/types/encode.go", Opt: instrument.Options{Yield: true, MapOrder: true, LoopYieldAll: true, MinMap: 1}},
-			{File: "internal/utilities/merklization/state_serialize.go", Opt: instrument.Options{MapOrder: true}},
+			// the state serialiser fans out over an errgroup: its goroutines must be simulated goroutines too (they
+			// draw encoders from the pool)
+			{File: "internal/utilities/merklization/state_serialize.go", Opt: instrument.Options{Yield: true, MapOrder: true, MinGo: 1}},
 			{File: "internal/utilities/merklization/state_key_constructor.go", Opt: instrument.Options{MapOrder: true}},
 		},
 		GoMaxProcs: 2,
@@ -158,7 +160,7 @@ var harnesses = map[string]*Harness{
 var checks = []Check{
 	{
 		Property: "C11", Harness: "h6codec", Level: "exploration",
-		Quick:       tierCfg{budget: 150, maxRuns: 400, shrink: 200},
+		Quick:       tierCfg{budget: 150, maxRuns: 1500, shrink: 200},
 		Thorough:    tierCfg{budget: 900, shrink: 1500},
 		RunTimeoutS: 120,
 		Rule:        "one evaluation = 3-10 generated values of the serialisable protocol types (reflection-driven generator that respects the fixed-length invariants of the codec: validator / core / epoch / queue counts, one-of unions, 15-bit import indices; maps filled in tape order; integers biased to the boundaries of the compact encoding) plus fuzz-protocol messages, encoded once by a private fresh encoder, then encoded / hashed / decoded / re-encoded 2-8 times by each of 1-4 concurrent tasks through the shared encoder pool under a tape-chosen interleaving (yield in every loop of the encoder), pool hand-out order (newest, oldest, random, lost objects) and map iteration order (sorted, reversed, random); non-trivial = at least 2 tasks; distinct = multiset of value types",
@@ -199,7 +201,7 @@ var checks = []Check{
 		LevelNote:    "what \"same result\" means: accept/reject decision, returned root, GetState key-value set (error texts are logged, not compared); the observation that a node which imported other VALID branches can answer differently from a node that imported only a block's ancestry is counted as a by-product (not claimed by the property text)",
 		Technique:    "deterministic simulation of the node under seeded block histories with fault injection (invalid blocks rejected at chosen STF stages, retries, children of rejected blocks, forks, restarts from exported state), reference-node and reference-model oracles, tape shrinking + fresh-process replay",
 		DesignRef:    "DESIGN.md §4 H4, Appendix A",
-		ExpectProbes: []string{"fault:delivered_invalid", "fault:delivered_retry", "fault:delivered_orphan", "fault:restart_from_export", "probe:valid_block_accepted_after_fault", "rejections_by_stage:2", "rejections_by_stage:4", "rejections_by_stage:5", "rejections_by_stage:6", "rejections_by_stage:7", "rejections_by_stage:8", "rejections_by_stage:9", "fault:fork_sibling_built", "fault:damaged_block_is_a_sibling", "probe:reports_became_available_in_history"},
+		ExpectProbes: []string{"fault:delivered_invalid", "fault:delivered_retry", "fault:delivered_orphan", "fault:restart_from_export", "probe:valid_block_accepted_after_fault", "rejections_by_stage:2", "rejections_by_stage:4", "rejections_by_stage:5", "rejections_by_stage:6", "rejections_by_stage:7", "rejections_by_stage:8", "rejections_by_stage:9", "fault:fork_sibling_built", "fault:damaged_block_is_a_sibling", "probe:reports_became_available_in_history", "fault:rejected_block_on_other_fork_than_head", "fault:orphan_is_otherwise_valid_child_of_head_on_other_fork", "probe:service_id_with_special_octets"},
 	},
 	{
 		Property: "C17", Harness: "h4chain", Level: "exploration",
@@ -229,7 +231,7 @@ var checks = []Check{
 		LevelNote:    "ticket identifiers are stand-in VRF outputs; ring proofs are stand-in",
 		Technique:    "deterministic simulation of the node under seeded block histories with fault injection (invalid blocks rejected at chosen STF stages, retries, children of rejected blocks, forks, restarts from exported state), reference-node and reference-model oracles, tape shrinking + fresh-process replay",
 		DesignRef:    "DESIGN.md §4 H4, Appendix A",
-		ExpectProbes: []string{"probe:tickets_accumulated", "probe:sealer_sequence_fallback_on_epoch_change", "fault:invalid_block:tickets-unsorted", "fault:invalid_block:tickets-duplicate", "fault:invalid_block:ticket-over-attempt", "fault:invalid_block:tickets-after-submission-window", "fault:invalid_block:ticket-already-in-accumulator", "probe:accumulator_full", "probe:sealer_sequence_from_tickets"},
+		ExpectProbes: []string{"probe:tickets_accumulated", "probe:sealer_sequence_fallback_on_epoch_change", "fault:invalid_block:tickets-unsorted", "fault:invalid_block:tickets-duplicate", "fault:invalid_block:ticket-over-attempt", "fault:invalid_block:tickets-after-submission-window", "fault:invalid_block:ticket-already-in-accumulator", "probe:full_accumulator_closed_window_then_skipped_epoch", "probe:accumulator_full", "probe:sealer_sequence_from_tickets"},
 	},
 	{
 		Property: "C25", Harness: "h4chain", Level: "exploration",
@@ -274,7 +276,7 @@ var checks = []Check{
 		LevelNote:    "at most two offenders per history so that enough keyed validators remain to author blocks",
 		Technique:    "deterministic simulation of the node under seeded block histories with fault injection (invalid blocks rejected at chosen STF stages, retries, children of rejected blocks, forks, restarts from exported state), reference-node and reference-model oracles, tape shrinking + fresh-process replay",
 		DesignRef:    "DESIGN.md §4 H4, Appendix A",
-		ExpectProbes: []string{"probe:verdict_good", "probe:verdict_bad", "probe:verdict_wonky", "probe:offenders_added", "fault:invalid_block:verdict-other-vote-count", "probe:judged_report_left_pending_availability"},
+		ExpectProbes: []string{"probe:verdict_good", "probe:verdict_bad", "probe:verdict_wonky", "probe:offenders_added", "fault:invalid_block:verdict-other-vote-count", "probe:judged_report_left_pending_availability", "fault:judged_report_judged_again_with_another_class"},
 	},
 	{
 		Property: "C31", Harness: "h4chain", Level: "exploration",
@@ -285,11 +287,11 @@ var checks = []Check{
 		Real:         []string{"internal/fuzz.FuzzServiceStub SetState / ImportBlock / GetState", "internal/stf.RunSTF with every stage (safrole, disputes, assurances, reports, accumulation, history, preimages, authorizations, statistics)", "internal/blockchain.ChainState commit / restore / prune, stores on the in-memory provider, leaf cache", "state codec (StateEncoder / StateKeyValsToState) and block codec on every delivery"},
 		Stub:         []string{vrfStub, "block author = harness code (fallback and ticket seals through the stand-in, real Ed25519 for disputes); it is not an oracle", "multi-node = sequential incarnations of the process-wide chain-state singleton separated by SetState"},
 		Assumptions:  []string{"the VRF is a stand-in: nothing about Bandersnatch is decided and ticket identifiers are stand-in outputs", "one chain state per process: the clean reference node and the node under test are sequential incarnations", "blocks come from the harness author: chains of 3-30 (thorough 60) blocks over several epochs with tickets, preimages, disputes (also against pending reports), assurances, guarantees (current and previous rotation, dependencies between packages) and the accumulation of the reports that become available by real PVM runs of small generated service programs (write, checkpoint, assign, transfer, yield)"},
-		LevelText:    "seeded exploration of admission and integration over block histories; evidence, not proof. PARTIAL: the historical-lookup function clause is a pure function that no on-chain path reaches and is not decided here",
-		LevelNote:    "",
+		LevelText:    "seeded exploration of admission and integration over block histories; evidence, not proof. PARTIAL: the historical-lookup function clause is a pure function that no on-chain path reaches; it is evaluated as a by-product on every stored preimage of every reached state (entries with 0, 1, 2 and 3 recorded slots) at the boundaries of the recorded slots and compared with the availability intervals the property states",
+		LevelNote:    "the lookup clause rides on the reached states: times are the recorded slots, one before and one after each, 0, the head slot and a far future slot; four-slot records and arbitrary times are not explored",
 		Technique:    "deterministic simulation of the node under seeded block histories with fault injection (invalid blocks rejected at chosen STF stages, retries, children of rejected blocks, forks, restarts from exported state), reference-node and reference-model oracles, tape shrinking + fresh-process replay",
 		DesignRef:    "DESIGN.md §4 H4, Appendix A",
-		ExpectProbes: []string{"probe:preimage_integrated", "fault:invalid_block:preimage-unsolicited", "fault:invalid_block:preimage-already-provided", "fault:invalid_block:preimages-unsorted", "fault:invalid_block:preimage-duplicate"},
+		ExpectProbes: []string{"probe:preimage_integrated", "probe:historical_lookup_evaluated", "probe:historical_lookup_on_three_slot_entry", "fault:invalid_block:preimage-unsolicited", "fault:invalid_block:preimage-already-provided", "fault:invalid_block:preimages-unsorted", "fault:invalid_block:preimage-duplicate"},
 	},
 	{
 		Property: "C24", Harness: "h4chain", Level: "exploration",
@@ -304,7 +306,7 @@ var checks = []Check{
 		LevelNote:    "",
 		Technique:    "deterministic simulation of the node under seeded block histories with fault injection (invalid blocks rejected at chosen STF stages, retries, children of rejected blocks, forks, restarts from exported state), reference-node and reference-model oracles, tape shrinking + fresh-process replay",
 		DesignRef:    "DESIGN.md §4 H4, Appendix A",
-		ExpectProbes: []string{"probe:pool_overflow_oldest_dropped", "probe:authorizer_removed_from_pool"},
+		ExpectProbes: []string{"probe:pool_overflow_oldest_dropped", "probe:authorizer_removed_from_pool", "probe:two_cores_use_the_same_authorizer_in_one_block"},
 	},
 	{
 		Property: "C21", Harness: "h4chain", Level: "exploration",
@@ -362,7 +364,7 @@ var checks = []Check{
 		LevelNote:    "initial balances are generated consistent with thresholds (slack 0..2^62); incoming-transfer credit is accounted for explicitly",
 		Technique:    "deterministic simulation of the accumulation transaction: seeded host-call histories with injected abort points (gas exhaustion at tape-chosen / exhaustively swept step boundaries, traps, unreadable pointers), per-step reference-model oracles in exact integers, tape shrinking + fresh-process replay",
 		DesignRef:    "DESIGN.md §4 H3, §5 C08",
-		ExpectProbes: []string{"probe:cash_returned", "probe:transfer_ok", "probe:new_ok", "probe:eject_ok"},
+		ExpectProbes: []string{"probe:cash_returned", "probe:transfer_ok", "probe:new_ok", "probe:eject_ok", "probe:returned_sum_checked"},
 	},
 	{
 		Property: "C09", Harness: "h3acc", Level: "exploration",
@@ -386,11 +388,11 @@ var checks = []Check{
 		Real:         []string{"PVM.Psi_A end to end: standard-program initialiser, block engine, every accumulate and general host call (real functions reached through wrappers placed in the exported PVM.AccumulateOmegas slice), checkpoint/collapse functions, deep copies", "internal/service_account threshold/footprint helpers", "internal/utilities/merklization raw key constructors"},
 		Stub:         []string{"guest programs are generated by the harness assembler (straight-line load_imm_64/ecalli groups ending in halt/trap/gas-burning loop); " + vrfStub + " (compile only)"},
 		Assumptions:  []string{"abort points are reached through the gas limit (tape-chosen, or every limit 0..need+1 in sweep runs) and through traps / unreadable pointers; per-step observation = serialised snapshots of the X and Y contexts taken by wrappers around the real host-call functions", "the instruction mix is what the builder emits (load_imm_64, ecalli, jump_ind, trap, jump, fallthrough); other opcodes are not exercised here"},
-		LevelText:    "gas exhaustion is injected at every step boundary of sampled programs (exhaustive over the limit) and at tape-chosen points otherwise; the cost model comes from the property text; evidence over generated programs, not proof. Only the abort-consistency half of the property is decided: per-opcode charges of instructions the builder does not emit are not covered",
+		LevelText:    "gas exhaustion is injected at every step boundary of sampled programs (exhaustive over the limit) and at tape-chosen points otherwise; the cost model comes from the property text; evidence over generated programs, not proof. Only the abort-consistency half of the property is decided: the builder emits load_imm_64, ecalli, move_reg, store_imm_u8, load_u8, fallthrough, branch_eq_imm, jump, jump_ind and trap (host-call groups separated by filler instructions and basic-block boundaries, endings: halt, trap, endless loop, a load / store that faults in the middle of a block); per-opcode charges of the other instructions are not covered",
 		LevelNote:    "weak fit: without an abort the property is a pure function; claimed for metering at abort points and reported usage",
 		Technique:    "deterministic simulation of the accumulation transaction: seeded host-call histories with injected abort points (gas exhaustion at tape-chosen / exhaustively swept step boundaries, traps, unreadable pointers), per-step reference-model oracles in exact integers, tape shrinking + fresh-process replay",
 		DesignRef:    "DESIGN.md §4 H3, §5 C04",
-		ExpectProbes: []string{"probe:exhaustive_gas_sweeps", "probe:oog_inside_host_call", "fault:gas_limit_abort_point"},
+		ExpectProbes: []string{"probe:exhaustive_gas_sweeps", "probe:oog_inside_host_call", "fault:gas_limit_abort_point", "probe:filler_instructions_between_host_calls", "probe:reported_gas_checked_after_trap", "probe:reported_gas_checked_after_memory_fault"},
 	},
 	{
 		Property: "C16", Harness: "h5cache", Level: "exploration",
